@@ -308,6 +308,18 @@ func GenWorld(r *Run, o GenOpts) *World {
 		w.Files = append(w.Files, ref.Protected{Name: name, Data: data})
 		t.End()
 	}
+	if o.Par1 {
+		// a PAR1 set needs at least one byte of data to have parity at all
+		nonEmpty := false
+		for _, f := range w.Files {
+			if len(f.Data) > 0 {
+				nonEmpty = true
+			}
+		}
+		if !nonEmpty {
+			w.Files[0].Data = []byte{0x42}
+		}
+	}
 	for i, f := range w.Files {
 		w.Disk.Put(w.Path(i), f.Data)
 		if len(f.Data) >= 16384 {
